@@ -1,7 +1,12 @@
-From Coq Require Import ZArith List Bool Lia.
+From Coq Require Import ZArith List Bool Lia ZifyBool.
 Import ListNotations.
 Require Import Verif.lib.PyLite Verif.gen.BananaGen Verif.lib.OpenerBase Verif.gen.OpenerGen.
 Local Open Scope Z_scope.
+
+(* gen/OpenerGen.v is produced by symbolic execution of the two openerCheckToken methods: whatever the arrangement of the
+   tests in the source (if/elif chain, guard clauses, a helper computing the limit), the result is a nest of
+   if-then-else over the same atomic tests.  The proofs below do not depend on that arrangement: they decide the
+   type-byte tests, split on the remaining ones and finish by linear arithmetic. *)
 
 Lemma bytes_eqb_eq a : forall b, bytes_eqb a b = true <-> a = b.
 Proof.
@@ -15,58 +20,54 @@ Proof.
   rewrite bytes_eqb_eq. split; [intros ->; reflexivity | intros H; inversion H; reflexivity].
 Qed.
 
-Lemma string_not_vocab : (tok_STRING =? tok_VOCAB) = false.
-Proof. reflexivity. Qed.
+Lemma string_is_string : (tok_STRING =? tok_STRING) = true.  Proof. reflexivity. Qed.
+Lemma string_not_vocab : (tok_STRING =? tok_VOCAB) = false.   Proof. reflexivity. Qed.
+
+Ltac split_ifs H :=
+  repeat match type of H with
+         | context [if ?c then _ else _] => let E := fresh "E" in destruct c eqn:E
+         end.
+
+(* H : <nest of ifs> = true, about a STRING token *)
+Ltac string_case H :=
+  rewrite ?string_is_string, ?string_not_vocab in H; cbn [negb andb orb] in H;
+  split_ifs H; try discriminate; try lia.
 
 (* ---- the Broker's root (PBRootUnslicer) ---- *)
-(* the first index token is bounded by the longest opentype string, the class name after OPEN copyable by the
-   longest registered Copyable name *)
 Theorem pb_first_index_bounded mi lg size :
   pb_opener_accepts mi lg [] tok_STRING size = true -> size <= mi.
 Proof.
-  unfold pb_opener_accepts. rewrite Z.eqb_refl. cbn [List.length Nat.eqb].
-  destruct (Z.ltb_spec mi size); [discriminate | lia].
+  unfold pb_opener_accepts. intros H. cbn [List.length Nat.eqb ot_is_copyable] in H. string_case H.
 Qed.
 
 Theorem pb_classname_bounded mi lg size :
   pb_opener_accepts mi lg [copyable_name] tok_STRING size = true -> size <= lg.
 Proof.
-  unfold pb_opener_accepts. rewrite Z.eqb_refl. cbn [List.length Nat.eqb].
-  replace (ot_is_copyable [copyable_name]) with true by reflexivity.
-  destruct (Z.ltb_spec lg size); [discriminate | lia].
+  unfold pb_opener_accepts. intros H. cbn [List.length Nat.eqb] in H.
+  replace (ot_is_copyable [copyable_name]) with true in H by reflexivity. string_case H.
 Qed.
 
-(* only STRING and VOCAB tokens may be index tokens *)
+Ltac kinds_case H ty :=
+  destruct (Z.eqb_spec ty tok_STRING) as [Hs|Hs]; [left; exact Hs|];
+  destruct (Z.eqb_spec ty tok_VOCAB) as [Hv|Hv]; [right; exact Hv|];
+  cbn [negb andb orb] in H; split_ifs H; discriminate.
+
 Theorem pb_index_kinds mi lg ot ty size :
   pb_opener_accepts mi lg ot ty size = true -> ty = tok_STRING \/ ty = tok_VOCAB.
-Proof.
-  unfold pb_opener_accepts. destruct (Z.eqb_spec ty tok_STRING); [auto|].
-  destruct (Z.eqb_spec ty tok_VOCAB); [auto | discriminate].
-Qed.
+Proof. unfold pb_opener_accepts. intros H. kinds_case H ty. Qed.
 
 (* ---- the plain root (storage, and every Banana that is not a Broker) ---- *)
 Theorem root_index_bounded mi lg ot size :
   root_opener_accepts mi lg ot tok_STRING size = true -> size <= Z.max mi lg.
-Proof.
-  unfold root_opener_accepts. rewrite Z.eqb_refl.
-  destruct (ot_is_copyable ot).
-  - destruct (Z.ltb_spec (Z.max mi lg) size); [discriminate | lia].
-  - destruct (Z.ltb_spec mi size); [discriminate | lia].
-Qed.
+Proof. unfold root_opener_accepts. intros H. string_case H. Qed.
 
 Theorem root_non_copyable_bounded mi lg ot size :
   ot_is_copyable ot = false -> root_opener_accepts mi lg ot tok_STRING size = true -> size <= mi.
-Proof.
-  unfold root_opener_accepts. rewrite Z.eqb_refl. intros ->.
-  destruct (Z.ltb_spec mi size); [discriminate | lia].
-Qed.
+Proof. unfold root_opener_accepts. intros Hc H. rewrite ?Hc in H. string_case H. Qed.
 
 Theorem root_index_kinds mi lg ot ty size :
   root_opener_accepts mi lg ot ty size = true -> ty = tok_STRING \/ ty = tok_VOCAB.
-Proof.
-  unfold root_opener_accepts. destruct (Z.eqb_spec ty tok_STRING); [auto|].
-  destruct (Z.eqb_spec ty tok_VOCAB); [auto | discriminate].
-Qed.
+Proof. unfold root_opener_accepts. intros H. kinds_case H ty. Qed.
 
 (* a second index token is awaited only after "copyable" (RootUnslicer.open, shape fact), so the two positions
    above are all the index positions there are *)
